@@ -14,6 +14,17 @@ CLAIMS = {
                 note="Assumes the TemplatedFile tiling invariant (C07) and that trim patterns are maximal runs (X+; checked "
                      "syntactically). The content of the ~150 dialect regexes (which text becomes which token) is outside. "
                      "Known finding F18 (token spanning a loop jump) is excluded by pattern."),
+    "C02": dict(design_ref="§3 C02", technique=SYM,
+                text="(1) Inductive step of MatchResult.apply for a node with <=3 arbitrary children and <=2 inserts over an opaque "
+                     "token sequence of UNBOUNDED length: leaves tile tokens[start:stop] in order, each insert materialises exactly once "
+                     "at its index (children's own apply = induction hypothesis, so any depth). (2) Real Sequence/Bracketed/AnyNumberOf/"
+                     "OneOf/Delimited.match (+ longest_match, greedy_match, trim_to_terminator, _flush_metas) with stub children "
+                     "returning arbitrary well-formed results, all token-kind patterns over N<=4 tokens, every parse mode: the result "
+                     "satisfies the well-formedness invariant I, starts at idx, leaves no code token outside a child (unmatched code is "
+                     "inside an unparsable child) and materialises to exactly the input tokens. (3) root_parse wraps unmatched code in "
+                     "one unparsable node and keeps every token.",
+                note="Induction hypothesis: child grammars return results satisfying invariant I. Termination/intended parse of the "
+                     "composed recursion over a real dialect, and Parser.parse end-to-end, are outside. check_still_complete is not relied on."),
     "C10": dict(design_ref="§3 C10/C11/C30", technique=SYM,
                 text="Bounded model checking of the real patch pipeline (generate_source_patches filter, merge_source_patches, "
                      "_slice_source_file_using_patches, _build_up_fixed_source_string) for ALL source lengths, slice boundaries, "
@@ -55,6 +66,6 @@ NOT_APPLICABLE = {
     "C16": "oracle is SQLite executing the query before/after; no solver model of SQL semantics is within reach",
     "C17": "fixpoint of the whole rule set over arbitrary SQL; not encodable",
 }
-for _p in ["C02", "C03", "C04", "C05", "C06", "C07", "C08", "C09", "C15", "C18", "C19", "C20", "C21", "C22",
+for _p in ["C03", "C04", "C05", "C06", "C07", "C08", "C09", "C15", "C18", "C19", "C20", "C21", "C22",
            "C24", "C25", "C26", "C27", "C28", "C29", "C32", "C34"]:
     NOT_APPLICABLE.setdefault(_p, "check not built yet (planned, see DESIGN.md §3); not claimed until its harness is committed")
